@@ -734,11 +734,16 @@ func tripleToRow(t *triple.Triple, cls *semantic.GraphClause) (table.Row, error)
 		if err == nil {
 			r[cls.OIDAlias] = &table.Cell{S: table.CellString(n.ID().String())}
 		} else {
-			p, err := o.Predicate()
-			if err != nil {
-				return nil, err
+			var c *table.Cell
+			if p, err := o.Predicate(); err == nil {
+				c = &table.Cell{S: table.CellString(string(p.ID()))}
+			} else {
+				// Literals have no ID: as for TYPE and AT, the triple is skipped if the clause is not optional, otherwise we provide an empty Cell as we want <NULL> to appear in the query result.
+				if !cls.Optional {
+					return nil, &skippableError{"cls.OIDAlias in non-optional clause", err}
+				}
+				c = &table.Cell{}
 			}
-			c := &table.Cell{S: table.CellString(string(p.ID()))}
 			r[cls.OIDAlias] = c
 			if !validBinding(cls.OIDAlias, c) {
 				return nil, nil
